@@ -17,14 +17,14 @@ ID = "C19"
 RULE = ("Each case is one market with a generated tick size (powers of two 2^-10..2^3, decimal ticks 0.1/0.01/1e-5/0.3/7, "
         "arbitrary floats in [1e-5, 50]) and up to 40 limit orders per side whose prices are on the grid (k*tick in "
         "floats and in exact arithmetic), within a few ulps of a grid point, or off the grid by a generated fraction of a "
-        "tick (including prices below one tick), with price/tick up to 2^40. The accepted price (OrderLog and Order) is compared in exact rational "
+        "tick (including prices below one tick and integer-typed prices), with price/tick up to 2^40. The accepted price (OrderLog and Order) is compared in exact rational "
         "arithmetic: exact multiple -> unchanged; power-of-two tick -> exactly floor/ceil(P/T)*T; otherwise on the grid "
         "up to 2^-50 relative, never more aggressive than P by more than P*2^-50, moved by < T + P*2^-50. Non-trivial = "
         "case containing an off-grid price; distinct by hash of (tick, prices).")
 ASSUMPTIONS = ["2^-50 relative slack covers the two float roundings (quotient, product) the statement allows as 'floating-point representation of the grid'"]
 
 DYADIC = [2.0 ** k for k in range(-10, 4)]
-DECIMAL = [0.1, 0.01, 1e-5, 0.3, 7.0, 0.05, 2.5, 1e-3]
+DECIMAL = [0.1, 0.01, 1e-5, 0.3, 7.0, 0.05, 2.5, 1e-3, 10.0, 2.0, 3.0]
 
 
 @st.composite
@@ -34,7 +34,7 @@ def cases(draw):
     n = draw(st.integers(1, 40))
     prices = []
     for _ in range(n):
-        kind = draw(st.integers(0, 4))
+        kind = draw(st.integers(0, 5))
         k = draw(st.one_of(st.integers(1, 2000), st.integers(1, 2 ** 40)))
         if kind == 0:
             p = k * tick
@@ -46,6 +46,8 @@ def cases(draw):
             p = (k + draw(st.floats(min_value=0.0, max_value=1.0, allow_nan=False))) * tick
         elif kind == 3:
             p = draw(st.floats(min_value=tick, max_value=min(tick * 2.0 ** 40, 1e12), allow_nan=False))
+        elif kind == 5:
+            p = draw(st.integers(1, 100000))  # an integer-typed price (as read from a JSON file or typed by a user)
         elif kind == 4 and draw(st.booleans()):
             p = tick * draw(st.floats(min_value=1e-6, max_value=0.999999, allow_nan=False))  # below one tick
         else:
@@ -74,6 +76,8 @@ def check_case(case):
         from fractions import Fraction
         if p < tick:
             classes.add("below_one_tick")
+        if isinstance(p, int):
+            classes.add("int_price")
         if Fraction(p) % Fraction(tick) != 0:
             off += 1
             classes.add("offgrid_buy" if is_buy else "offgrid_sell")
